@@ -22,6 +22,9 @@ BASES = {
     "net": A._b(soil="Sand", word="dry", irr="net80", iwc="WP"),
     "const": A._b(soil="Clay", word="normal", irr="const8e70"),
     "sched_bunds": A._b(soil="Paddy", word="showers", irr="sched", field="bunds50w20", crop="rice.2", iwc="SAT"),
+    # shallow ponds behind bunds that evaporation uses up within a day or two (rainfed, slowly draining soil, showers)
+    "rainfed_bunds_paddy": A._b(soil="Paddy", word="showers", irr="none", field="bunds200", crop="rice.2", iwc="SAT"),
+    "rainfed_bunds_clay": A._b(soil="Clay", word="normal", irr="none", field="bunds50w20", crop="maize.2", iwc="FC", win="w2"),
     "const_wet30": A._b(soil="Loam", word="normal", irr="const8wet30"),
     "smt_wet40": A._b(soil="SandyLoam", word="dry", irr="smt_wet40", iwc="Pct50"),
 }
